@@ -141,11 +141,9 @@ where
 
         self.container.pop().expect("must be non-empty");
 
-        // We did some work if we get here; check if we reached
-        // an empty state.
-        if self.is_empty() {
-            self.clear();
-        }
+        // We did some work if we get here; restore the waste bound
+        // (the container just shrank), or the clean empty state.
+        self.maybe_slide();
 
         self.check_rep();
         Some(ret)
